@@ -633,7 +633,7 @@ class C01(Spec):
         # object (same arrays / one parameter changed) drawn interleaved, references from a fresh interpreter
         n_pristine = 4 if quick else 24
         for cls in CLASSES + extra[:2]:
-            m = (3 if quick else 12) if cls in noise else (40 if quick else 200)
+            m = (12 if quick else 40) if cls in noise else (40 if quick else 200)
             for _ in range(m):
                 tree = make_tree(rng, cls)
                 if rng.random() < 0.4:
